@@ -54,9 +54,14 @@ def rho(m):
     return sp.Rational(2 + h % 9973, 1 + (h // 9973) % 89)
 
 
+SYMVALS = {}      # values of the netlist symbols of the current case (name -> Rational)
+
+
 def tform(e):
     """dict monomial -> rational coefficient, or None"""
     e = sp.sympify(e)
+    if SYMVALS:
+        e = e.subs({sy: SYMVALS[sy.name] for sy in e.free_symbols if sy.name in SYMVALS})
     try:
         e = sp.expand(e)
     except Exception:
@@ -530,6 +535,10 @@ def nonzero_ics(c):
 def run_circuit(case):
     point = {'s': sp.Rational(case.get('s0', '2')), 'omega': sp.Rational(case.get('w0', '3/2')),
              '__eps__': sp.Rational(case.get('eps', '0'))}
+    SYMVALS.clear()
+    for k_, v_ in case.get('subs', {}).items():
+        SYMVALS[k_] = sp.Rational(v_)
+        point[k_] = sp.Rational(v_)
     state.current_sign_convention = 'passive'
     IC['TP_SRC_BY_CLASS'].clear()
     IC['TP_SRC_BY_CLASS'].update(case.get('tp_src', {}))
@@ -576,6 +585,15 @@ def run_circuit(case):
             import traceback
             killed[g] = {'error': type(e).__name__ + ': ' + str(e)[:200], 'tb': traceback.format_exc()[-400:]}
     res['killed'] = killed
+    if case.get('equiv'):
+        # the same circuit with one source value written in an equivalent form
+        eq = case['equiv']
+        try:
+            lines = [eq['line'] if l.split()[0] == eq['src'] else l for l in case['netlist']]
+            c3 = make(lines)
+            res['equiv'] = {'src': eq['src'], 'line': eq['line'], 'api': api_dump(c3, point, cheap, names, nodes, 'lite')}
+        except Exception as e:
+            res['equiv'] = {'error': type(e).__name__ + ': ' + str(e)[:200]}
     if case.get('scale'):
         sc = case['scale']
         try:
@@ -663,6 +681,7 @@ def spec_images(spec, point):
 
 
 def run_container(case):
+    SYMVALS.clear()
     from lcapy.superpositionvoltage import SuperpositionVoltage
     from lcapy.superpositioncurrent import SuperpositionCurrent
     point = {'s': sp.Rational(case.get('s0', '2')), 'omega': sp.Rational(case.get('w0', '3/2'))}
